@@ -213,9 +213,15 @@ def tr_add_child(fn):
     want = ['if not peer.connection:\n    return', 'self.children.append(peer)', 'root, level = self._get_advertised_branch_values()',
             'await peer.connection.send_message(DistributedBranchLevel.Request(level))',
             'if level != 0:\n    await peer.connection.send_message(DistributedBranchRoot.Request(root))']
+    # repaired shape (F28): the values are read again before each message
+    want2 = ['if not peer.connection:\n    return', 'self.children.append(peer)', '_, level = self._get_advertised_branch_values()',
+             'await peer.connection.send_message(DistributedBranchLevel.Request(level))',
+             'root, level = self._get_advertised_branch_values()',
+             'if level != 0:\n    await peer.connection.send_message(DistributedBranchRoot.Request(root))']
     got = [_src(s) for s in body]
-    if got != want:
+    if got not in (want, want2):
         raise Refuse(f'_add_child changed: {got}')
+    return got == want2
 
 
 def tr_advertised(fn):
@@ -311,6 +317,232 @@ def tr_parent_update(cls):
     return ('(* an update from the current parent is advertised to the server (then the children), or to the children only *)\n'
             f'Definition parent_update_tells_server : bool := {"true" if res[0] else "false"}.\n')
 
+
+# ---------------------------------------------------------------- effect lists of the procedural handlers
+class _Clean(ast.NodeTransformer):
+    """drops logging calls and docstrings at every nesting level"""
+
+    def visit_Expr(self, node):
+        v = node.value
+        if isinstance(v, ast.Constant) and isinstance(v.value, str):
+            return None
+        if (isinstance(v, ast.Call) and isinstance(v.func, ast.Attribute) and isinstance(v.func.value, ast.Name)
+                and v.func.value.id in ('logger', 'adapter')):
+            return None
+        return node
+
+
+def _clean_stmts(nodes):
+    import copy
+    body = [_Clean().visit(copy.deepcopy(x)) for x in nodes]
+    return [' '.join(_src(x).split()) for x in body if x is not None]
+
+
+def _stmts(fn):
+    return _clean_stmts(fn.body)
+
+
+CLOSE_OTHERS = [
+    'distributed_connections = [dpeer.connection for dpeer in self.distributed_peers if dpeer in [self.parent] + self.children]',
+    'disconnect_tasks = []',
+    'for peer_connection in self._network.peer_connections: if peer_connection.connection_type == PeerConnectionType.DISTRIBUTED: '
+    'if peer_connection not in distributed_connections: disconnect_tasks.append(peer_connection.disconnect(reason=CloseReason.REQUESTED))',
+    'await asyncio.gather(*disconnect_tasks, return_exceptions=True)',
+]
+
+EFFECT_ATOMS = {
+    'self.parent = peer': 'E_set_parent_peer',
+    'self.parent = None': 'E_set_parent_none',
+    'await asyncio.gather(*self._cancel_potential_parent_tasks(), return_exceptions=True)': 'E_await_cancel_tasks',
+    'await self._notify_server_of_parent()': 'E_notify_server',
+    'await self._notify_children_of_branch_values()': 'E_notify_children',
+    'if not self._session: return': 'E_return_if_no_session',
+    'username = self._session.user.name': 'E_read_username',
+    'self._session = event.session': 'E_set_session',
+    'self._session = None': 'E_clear_session',
+    'if self.parent and peer == self.parent: await self._unset_parent()': 'E_unset_if_parent',
+    'if peer in self.children: self._remove_child(peer)': 'E_remove_if_child',
+    'self.distributed_peers.remove(peer)': 'E_remove_peer',
+    'await self._disconnect_children()': 'E_disconnect_children',
+    'await self._disconnect_parent()': 'E_disconnect_parent',
+    'self.children.remove(peer)': 'E_children_remove',
+}
+ALL_EFFECTS = sorted(set(EFFECT_ATOMS.values()) | {'E_close_other_connections', 'E_tell_children_level_root'})
+
+
+def effect_list(name, stmts):
+    out = []
+    i = 0
+    while i < len(stmts):
+        if stmts[i:i + len(CLOSE_OTHERS)] == CLOSE_OTHERS:
+            out.append('E_close_other_connections')
+            i += len(CLOSE_OTHERS)
+            continue
+        a = EFFECT_ATOMS.get(stmts[i])
+        if a is None:
+            raise Refuse(f'{name}: statement outside the accepted effect vocabulary: {stmts[i]!r}')
+        out.append(a)
+        i += 1
+    return out
+
+
+def tr_effects(cls):
+    res = {}
+    res['set_parent_effects'] = effect_list('_set_parent', _stmts(find_func(cls.body, '_set_parent')))
+    # _unset_parent: last statement = level/root to the children
+    un = _stmts(find_func(cls.body, '_unset_parent'))
+    want_last = 'await self.send_messages_to_children(DistributedBranchLevel.Request({L}), DistributedBranchRoot.Request(username))'
+    import re
+    m = re.fullmatch(re.escape(want_last).replace(r'\{L\}', r'(\d+)'), un[-1]) if un else None
+    if not m:
+        raise Refuse(f'_unset_parent: announcement to the children changed: {un[-1:]!r}')
+    # the early return is written as an if with a logger call inside: _strip removed the logger call
+    un = ['if not self._session: return' if x.startswith('if not self._session:') and x.endswith('return') else x for x in un[:-1]]
+    res['unset_parent_effects'] = effect_list('_unset_parent', un) + ['E_tell_children_level_root']
+    unset_level = int(m.group(1))
+    res['session_init_effects'] = effect_list('_on_session_initialized', _stmts(find_func(cls.body, '_on_session_initialized')))
+    res['session_destroyed_effects'] = effect_list('_on_session_destroyed', _stmts(find_func(cls.body, '_on_session_destroyed')))
+    res['reset_effects'] = effect_list('reset', _stmts(find_func(cls.body, 'reset')))
+    res['remove_child_effects'] = effect_list('_remove_child', _stmts(find_func(cls.body, '_remove_child')))
+    # _on_state_changed: the CLOSED branch for a registered distributed peer
+    sc = find_func(cls.body, '_on_state_changed')
+    closed_if = None
+    for n in ast.walk(sc):
+        if isinstance(n, ast.If) and _src(n.test) == 'event.state == ConnectionState.CLOSED':
+            closed_if = n
+    if closed_if is None or closed_if.orelse:
+        raise Refuse('_on_state_changed: CLOSED branch not found')
+    cb = _clean_stmts(closed_if.body)
+    if cb[:2] != ['peer = self.get_distributed_peer(connection)', 'if not peer: return']:
+        raise Refuse(f'_on_state_changed: peer lookup changed: {cb[:2]}')
+    res['closed_handler_effects'] = effect_list('_on_state_changed(CLOSED)', cb[2:])
+
+    out = ['(* effect lists of the procedural handlers, in source order (await points are the E_await_* / E_notify_* atoms) *)\n',
+           'Inductive eff := ' + ' | '.join(ALL_EFFECTS) + '.\n']
+    for k, v in res.items():
+        out.append(f'Definition {k} : list eff := [{"; ".join(v)}].\n')
+    out.append(f'Definition unset_children_level : Z := {unset_level}.\n')
+    si = res['session_init_effects']
+    if si not in (['E_set_session', 'E_notify_server'], ['E_set_session', 'E_notify_server', 'E_notify_children']):
+        raise Refuse(f'_on_session_initialized: {si}')
+    out.append('(* the children are re-advertised when a session starts (repair of F27) *)\n')
+    out.append(f'Definition session_init_readvertises : bool := {"true" if len(si) == 3 else "false"}.\n')
+
+    # _notify_server_of_parent: order of the three messages, the search flag
+    ns = _stmts(find_func(cls.body, '_notify_server_of_parent'))
+    want = ['root, level = self._get_advertised_branch_values()', None,
+            'if not self._settings.debug.search_for_parent: search_for_parent = False', None]
+    if len(ns) != 4 or ns[0] != want[0] or ns[2] != want[2]:
+        raise Refuse(f'_notify_server_of_parent shape: {ns}')
+    flag = {'search_for_parent = False if self.parent else True': '(negb has_parent)',
+            'search_for_parent = not self.parent': '(negb has_parent)',
+            'search_for_parent = True if self.parent else False': 'has_parent',
+            'search_for_parent = True': 'true', 'search_for_parent = False': 'false'}.get(ns[1])
+    if flag is None:
+        raise Refuse(f'_notify_server_of_parent: search flag expression: {ns[1]!r}')
+    m = re.fullmatch(r'await self\._network\.send_server_messages\(\*\[(.*)\]\)', ns[3])
+    if not m:
+        raise Refuse(f'_notify_server_of_parent: send changed: {ns[3]!r}')
+    fields = {'BranchLevel.Request(level)': 'AF_level', 'BranchRoot.Request(root)': 'AF_root',
+              'ToggleParentSearch.Request(search_for_parent)': 'AF_search'}
+    order = []
+    for part in [x.strip() for x in m.group(1).split(', ')]:
+        if part not in fields:
+            raise Refuse(f'_notify_server_of_parent: message {part!r}')
+        order.append(fields[part])
+    out.append('Inductive advert_field := AF_level | AF_root | AF_search.\n')
+    out.append(f'Definition server_advert_order : list advert_field := [{"; ".join(order)}].\n')
+    out.append(f'Definition parent_search_flag (has_parent : bool) : bool := {flag}.\n')
+
+    # _notify_children_of_branch_values
+    nc = _stmts(find_func(cls.body, '_notify_children_of_branch_values'))
+    if nc != ['root, level = self._get_advertised_branch_values()',
+              'await self.send_messages_to_children(DistributedBranchLevel.Request(level), DistributedBranchRoot.Request(root))']:
+        raise Refuse(f'_notify_children_of_branch_values changed: {nc}')
+
+    # send_messages_to_children: independent queued sends on every current child, or one awaited write after the other
+    sm = _stmts(find_func(cls.body, 'send_messages_to_children'))
+    if sm == ['for child in self.children: child.connection.queue_messages(*messages)']:
+        indep = True
+    elif sm in (['for child in self.children: for message in messages: await child.connection.send_message(message)'],
+                ['for child in self.children: await child.connection.send_message(*messages)']):
+        indep = False
+    else:
+        raise Refuse(f'send_messages_to_children changed: {sm}')
+    out.append('(* every current child gets its own queued send tasks (true), or the children are written to one after the other (false) *)\n')
+    out.append(f'Definition children_send_independent : bool := {"true" if indep else "false"}.\n')
+    return ''.join(out)
+
+
+# ---------------------------------------------------------------- fingerprints of the remaining hand-modelled functions
+import hashlib
+
+FINGERPRINTS = {
+    'distributed.py:_cancel_potential_parent_tasks': 'a1592c1e9dd66873f5fd',
+    'distributed.py:_disconnect_child': '3a1f54432ea8a02586ba',
+    'distributed.py:_disconnect_children': 'f4936df2646b24fc4aed',
+    'distributed.py:_disconnect_parent': 'ba566187b2e9b97f1e96',
+    'distributed.py:_has_parent_speed_values': '9fd280bd7b4889d29d0b',
+    'distributed.py:_on_distributed_branch_level': '4af849639b6563abf529',
+    'distributed.py:_on_distributed_branch_root': '3b8d553cda6dc30aee7d',
+    'distributed.py:_on_distributed_child_depth': 'e9338311a838f952fc02',
+    'distributed.py:_on_distributed_search_request': '7317cbb83c0da127ec64',
+    'distributed.py:_on_distributed_server_search_request': 'c47100eb79d3d4445b79',
+    'distributed.py:_on_message_received': '22f7514cf11c5cd61fc1',
+    'distributed.py:_on_parent_min_speed': 'd053bd0ab03b1f9d7cf6',
+    'distributed.py:_on_parent_speed_ratio': '89b844dbc167d22c431f',
+    'distributed.py:_on_peer_connection_initialized': 'b37e9843c82b0302d78a',
+    'distributed.py:_on_potential_parents': '2d6e321bb41d2f8f3c4e',
+    'distributed.py:_on_server_search_request': 'f0b95c07de4be9864757',
+    'distributed.py:_on_state_changed': '10acfc1997cc32457386',
+    'distributed.py:_potential_parent_task_callback': '2dba9a4c09ceec24007b',
+    'distributed.py:_request_user_stats': '94b145f31140481497d6',
+    'distributed.py:_reset_server_values': '2e62cc22fb058f98adef',
+    'distributed.py:get_distributed_peer': '9b053b033642175427aa',
+    'network/connection.py:_cancel_queued_messages': '1769b461cf855c4c9c1a',
+    'network/connection.py:queue_message': '7c1bb7b8e056d2f02443',
+    'network/connection.py:queue_messages': '97485198e55c487f0e93',
+    'search/manager.py:_on_distributed_search_request': 'ed64defd6e310e1bd0b1',
+    'search/manager.py:_on_distributed_server_search_request': 'b922cfe0f4d3cc4ec606',
+    'search/manager.py:_on_server_search_request': '511cc26766516fa11097',
+    'search/manager.py:_query_shares_and_reply': '06364f977020419b1ec0',
+}     # regenerate with:  python -m translate.tr_dist --fingerprints
+
+
+def fingerprint(fn) -> str:
+    return hashlib.sha256('\n'.join(_stmts(fn)).encode()).hexdigest()[:20]
+
+
+PINNED = {
+    'distributed.py': ['get_distributed_peer', '_reset_server_values', '_disconnect_children', '_disconnect_child', '_disconnect_parent',
+                       '_on_parent_min_speed', '_on_parent_speed_ratio', '_on_potential_parents', '_on_server_search_request',
+                       '_on_distributed_branch_level', '_on_distributed_branch_root', '_on_distributed_child_depth',
+                       '_on_distributed_search_request', '_on_distributed_server_search_request', '_request_user_stats',
+                       '_has_parent_speed_values', '_on_peer_connection_initialized', '_on_message_received', '_on_state_changed',
+                       '_cancel_potential_parent_tasks', '_potential_parent_task_callback'],
+    'search/manager.py': ['_query_shares_and_reply', '_on_distributed_search_request', '_on_distributed_server_search_request',
+                          '_on_server_search_request'],
+    'network/connection.py': ['queue_message', 'queue_messages', '_cancel_queued_messages'],
+}
+
+
+def current_fingerprints(src: Path) -> dict:
+    res = {}
+    for rel, names in PINNED.items():
+        tree = ast.parse((src / 'aioslsk' / rel).read_text())
+        cname = {'distributed.py': 'DistributedNetwork', 'search/manager.py': 'SearchManager', 'network/connection.py': 'DataConnection'}[rel]
+        cls = find_class(tree, cname)
+        for n in names:
+            res[f'{rel}:{n}'] = fingerprint(find_func(cls.body, n))
+    return res
+
+
+def check_fingerprints(src: Path):
+    cur = current_fingerprints(src)
+    bad = [k for k in cur if FINGERPRINTS.get(k) != cur[k]]
+    if bad:
+        raise Refuse('hand-modelled functions changed since the model was written (fingerprint): ' + ', '.join(sorted(bad)))
+
 # ---------------------------------------------------------------- search carriers: own-name filters
 def _own_filter(fn, user_expr='message.username') -> bool:
     """True iff the handler returns before doing anything when message.username is the session user."""
@@ -337,7 +569,7 @@ def translate(src: Path) -> dict:
     cls = find_class(tree, 'DistributedNetwork')
     scls = find_class(stree, 'SearchManager')
 
-    out = [HEADER.format(src='src/aioslsk/distributed.py, constants.py, search/manager.py')]
+    out = [HEADER.format(src='src/aioslsk/distributed.py, constants.py, search/manager.py'), 'Import ListNotations.\n']
     cache = int_const(ctree.body, 'POTENTIAL_PARENTS_CACHE_SIZE')
     if not (1 <= cache < 5000):
         raise Refuse('POTENTIAL_PARENTS_CACHE_SIZE out of range')
@@ -363,10 +595,14 @@ def translate(src: Path) -> dict:
     out.append(tr_calculate_max_children(find_func(cls.body, '_calculate_max_children')) + '\n')
     out.append(tr_child_limits(find_func(cls.body, '_on_get_user_stats')) + '\n')
     out.append(tr_check_new_child(find_func(cls.body, '_check_if_new_child')) + '\n')
-    tr_add_child(find_func(cls.body, '_add_child'))
+    reread = tr_add_child(find_func(cls.body, '_add_child'))
+    out.append('(* _add_child reads the advertised values again before the root message (repair of F28) *)\n'
+               f'Definition add_child_rereads_values : bool := {"true" if reread else "false"}.\n\n')
     out.append(tr_advertised(find_func(cls.body, '_get_advertised_branch_values')) + '\n')
     out.append(tr_take_as_parent(find_func(cls.body, '_check_if_new_parent')) + '\n')
     out.append(tr_parent_update(cls) + '\n')
+    out.append(tr_effects(cls) + '\n')
+    check_fingerprints(src)
 
     # legacy carrier: code test
     leg = find_func(cls.body, '_on_distributed_server_search_request')
@@ -411,6 +647,13 @@ def translate(src: Path) -> dict:
     s_srv = _own_filter(find_func(scls.body, '_on_server_search_request'))
     s_dst = _own_filter(find_func(scls.body, '_on_distributed_search_request'))
     s_leg = _own_filter(find_func(scls.body, '_on_distributed_server_search_request'))
+    qr = _stmts(find_func(scls.body, '_query_shares_and_reply'))
+    gate = 'if self._settings.users.is_blocked(username, BlockingFlag.SEARCHES): return'
+    if qr[:1] != ['if not self._session: return'] or not any(x.startswith('visible, locked = self._shares_manager.query(') for x in qr):
+        raise Refuse(f'_query_shares_and_reply shape: {qr[:3]}')
+    qi = next(i for i, x in enumerate(qr) if x.startswith('visible, locked = self._shares_manager.query('))
+    out.append('(* _query_shares_and_reply returns before the query for a user blocked for searches (forwarding does not look at it) *)\n')
+    out.append(f'Definition answer_blocked_gate : bool := {"true" if gate in qr[:qi] else "false"}.\n\n')
     out.append('(* does the handler return early for searches of the logged-in user? (distributed.py = forwarding, search/manager.py = answering) *)\n')
     for nm, v in (('fwd_server_own_filtered', d_srv), ('fwd_dist_own_filtered', d_dst), ('fwd_legacy_own_filtered', d_leg),
                   ('ans_server_own_filtered', s_srv), ('ans_dist_own_filtered', s_dst), ('ans_legacy_own_filtered', s_leg)):
@@ -420,4 +663,8 @@ def translate(src: Path) -> dict:
 
 if __name__ == '__main__':
     import sys
+    if len(sys.argv) > 1 and sys.argv[1] == '--fingerprints':
+        import json
+        print(json.dumps(current_fingerprints(Path('/repo/src')), indent=1))
+        sys.exit(0)
     print(translate(Path(sys.argv[1] if len(sys.argv) > 1 else '/repo/src'))['DistGen.v'])
